@@ -154,6 +154,8 @@ def clause_observers(cases, ctx: Ctx):
             if got != base:
                 out.append((ci, "C11/observer-changes-result/" + "+".join(c["observers"]), f"{desc}: attaching {c['observers']} (as_list={c.get('as_list', True)}) changed the trained policy"))
         ctx.outcome("trained", base)
+        if ci % 8 == 7:
+            jax.clear_caches()  # every observer set is a fresh compilation of learn(); bound the worker's memory
     return out
 
 
